@@ -1,4 +1,5 @@
 pub mod certify;
 pub mod delaunay;
+pub mod fingerprint;
 pub mod levels;
 pub mod snap;
